@@ -712,9 +712,7 @@ def depends(rep, repo):
     c17.order_rules(rep, repo)
     # every signal must have an op that evaluates it from the right operands (interface BUF1/INV1 ops included)
     from checks import c01
-    from kvstatic import simops
-    simmod, init = simops.simops_init(repo)
-    c01.check_wiring(rep, simmod, init, simops.op_sites(init))
+    c01.wiring_rules(rep, repo)
 
 
 def thorough(rep, repo):
